@@ -1057,8 +1057,9 @@ func (r *vsRun) invariants() {
 	if msg16 != "" {
 		r.fatalf("%s", msg16)
 	}
-	if r.cfg.focus == "C11" {
+	if r.cfg.focus == "C11" || r.cfg.focus == "C12" {
 		// graph well-formedness and the referenced indication under generated schedules of tagging jobs
+		// (C12: also after every restart, where the graph is rebuilt from the state file)
 		tags, _, err := c11State(r.e)
 		if err != nil {
 			r.fatalf("%v", err)
